@@ -23,7 +23,7 @@ impl SwiftField for Field53A {
     where
         Self: Sized,
     {
-        let lines: Vec<&str> = input.split('\n').collect();
+        let lines: Vec<&str> = input.lines().collect();
 
         if lines.is_empty() {
             return Err(ParseError::InvalidFormat {
@@ -93,7 +93,7 @@ impl SwiftField for Field53B {
             });
         }
 
-        let lines: Vec<&str> = input.split('\n').collect();
+        let lines: Vec<&str> = input.lines().collect();
         let mut party_identifier = None;
         let mut location = None;
 
@@ -169,7 +169,7 @@ impl SwiftField for Field53D {
     where
         Self: Sized,
     {
-        let mut lines = input.split('\n').collect::<Vec<_>>();
+        let mut lines = input.lines().collect::<Vec<_>>();
 
         if lines.is_empty() {
             return Err(ParseError::InvalidFormat {
@@ -259,7 +259,7 @@ impl SwiftField for Field53SenderCorrespondent {
         // B: Has optional party identifier and/or location
         // D: Has party identifier and/or multiple lines of name/address
 
-        let lines: Vec<&str> = input.split('\n').collect();
+        let lines: Vec<&str> = input.lines().collect();
         let last_line = lines.last().unwrap_or(&"");
 
         // Check if last line looks like a BIC code
